@@ -16,10 +16,10 @@ inside transitions, and one injected fault — is decided by the model:
   `transition_to`, `_do_pause`, `do_kill`, `CancellableAction.run`, the closing part of `Process.step`);
 * the hooks of the EXCEPTED state (`on_except`, `on_excepted`) are not fault points (they only run after another
   failure); `on_create` is construction (`Fault/Model.lean`, `construct`);
-* **one event of the model** (`stepX`): an event in which the fault does not fire IS the event of the model with
-  listeners (`stepL`; only the count of hook calls is taken from the twins); the event in which it fires is the twins'.
-  After that the fault is disarmed and every event is `stepL` again.  So a run is: a run of `PMF.L`, one faulty event,
-  a run of `PMF.L` — the invariants proved for `runL` apply before and after.
+* **one event of the model** (`stepX`): without a fault the event of the model with listeners (`stepL`), by definition; once a
+  fault is armed, the twins' (`stepF`), also after it fired (the twins then pass every hook).  That the twins of a run whose
+  fault never fires compute what `stepL` computes is checked by the correspondence with the real code (every case of C03, op
+  by op), not proved.
 
 Faults in user code that is not a lifecycle hook need no twin:
 * a step function (or an `out()` call inside it) raising is a program whose body raises: `withStepFault`;
@@ -82,33 +82,38 @@ The call of the override is counted on entry; the armed call raises before calli
 itself raised, that exception propagates).  Neither wrapper is exception-safe: an override that raises BEFORE calling `super()`
 leaves `_called` one too high, and a hook call that is in progress around it (`on_paused` / `on_playing` / `on_running` whose
 listeners made the request that led here) then fails its own final assertion although its base implementation ran. -/
+inductive HookOut | pass | before | after
+deriving DecidableEq, Repr, Inhabited
+
+/-- what the armed fault does at a call of hook `hk`, and the fault that stays armed afterwards -/
+def armStep (hk : HK) : Option Arm → HookOut × Option Arm
+  | none => (.pass, none)
+  | some a =>
+    if a.hk = hk then
+      if a.left = 0 then (if a.after then .after else .before, none)
+      else (.pass, some { a with left := a.left - 1 })
+    else (.pass, some a)
+
+/-- `super().on_x()`: the base implementation behind the `super_check` wrapper.  (`Process.on_terminated` is not wrapped itself:
+it first calls the wrapped, empty `StateMachine.on_terminated`, then releases the pause and closes.) -/
+def supF (hk : HK) (base : FCfg → Res) (x : FCfg) : Res :=
+  if hk = .onTerminated then base { x with called := x.called - 1 } else
+  match base x with
+  | (y, none) => ({ y with called := y.called - 1 }, none)
+  | (y, some e) => (y, some e)
+
 def hookF (hk : HK) (base : FCfg → Res) (x : FCfg) : Res :=
   let cc := x.called
-  let x := { x with called := cc + 1 }
-  let sup (x : FCfg) : Res :=                       -- `super().on_x()` through the `super_check` wrapper
-    if hk = .onTerminated then
-      -- `Process.on_terminated` is not wrapped itself: it calls the (empty, wrapped) `StateMachine.on_terminated` first
-      base { x with called := x.called - 1 }
-    else
-    match base x with
-    | (y, none) => ({ y with called := y.called - 1 }, none)
+  let d := armStep hk x.arm
+  let x := { x with called := cc + 1, arm := d.2 }
+  match d.1 with
+  | .before => ({ x with fired := true }, some faultExc)
+  | o =>
+    match supF hk base x with
     | (y, some e) => (y, some e)
-  let r : Res :=
-    match x.arm with
-    | none => sup x
-    | some a =>
-      if a.hk = hk then
-        if a.left = 0 then
-          if a.after then
-            match sup { x with arm := none } with
-            | (y, none) => ({ y with fired := true }, some faultExc)
-            | (y, some e) => (y, some e)
-          else ({ x with arm := none, fired := true }, some faultExc)
-        else sup { x with arm := some { a with left := a.left - 1 } }
-      else sup x
-  match r with
-  | (y, none) => if y.called = cc then (y, none) else (y, some .assertion)
-  | (y, some e) => (y, some e)
+    | (y, none) =>
+      if o = .after then ({ y with fired := true }, some faultExc)
+      else if y.called = cc then (y, none) else (y, some .assertion)
 
 def enteredHK : SObj → Option HK
   | .running .. => some .onRunning | .waiting .. => some .onWaiting | .finished .. => some .onFinished
@@ -189,8 +194,11 @@ def tryTransitionF (x : FCfg) (s : SObj) : Res :=
       enterNextF N x s
   else (x, some (.noTransition x.l.c.st.label s.label))
 
-/-- `transition_to` with `Process.transition_failed` -/
+/-- `transition_to` with `Process.transition_failed`.  (The assertion at its top is not in `PM/Listener.lean`: no request is made
+from inside a transition outside a step there; here it makes the statement "a request made during a transition cannot change the
+state" a local fact.) -/
 def transitionToF (x : FCfg) (s : SObj) : Res :=
+  if x.l.trans.isSome then (x, some .assertion) else    -- `assert not self._transitioning`
   let x := x.updL (fun l => { l with trans := some s.label })
   let r :=
     match tryTransitionF N x s with
@@ -430,14 +438,10 @@ def fireNF : Nat → Hook → FCfg → FCfg
 /-- one event with the fault-aware twins -/
 def stepF (P : Prog) (x : FCfg) (ev : Ev) : FCfg × RetV := stepFN (fireNF x.l.plan.length) P x ev
 
-/-- **one event of the model with one injected fault**: while the fault is armed the twins decide whether it fires in this event;
-if it does not, the event is the event of the model with listeners (the twins only contribute the count of hook calls) -/
+/-- **one event of the model with one injected fault**: the event of the model with listeners if no fault was ever armed, else
+the twins' -/
 def stepX (P : Prog) (x : FCfg) (ev : Ev) : FCfg × RetV :=
-  match x.arm with
-  | none => ({ x with l := (stepL P x.l ev).1 }, (stepL P x.l ev).2)
-  | some _ =>
-    let r := stepF P x ev
-    if r.1.fired then r else ({ x with l := (stepL P x.l ev).1, arm := r.1.arm }, (stepL P x.l ev).2)
+  if x.arm.isNone && !x.fired then ({ x with l := (stepL P x.l ev).1 }, (stepL P x.l ev).2) else stepF P x ev
 
 def runX (P : Prog) (x0 : FCfg) (evs : List Ev) : FCfg := evs.foldl (fun x e => (stepX P x e).1) x0
 
